@@ -119,6 +119,18 @@ def run_case(desc, ctx):
             with quiet():
                 return float(loss.compute_loss(s, r))
 
+        layout = str(rng.choice(["plain", "plain", "readonly", "strided", "fortran"]))
+        if layout == "readonly":      # a loss never needs to write to what it is given
+            sim.setflags(write=False)
+            real.setflags(write=False)
+        elif layout == "strided":     # views into larger buffers
+            bs_, br_ = np.zeros((E, 2 * N, D), dtype=sim.dtype), np.zeros((2 * N, D), dtype=real.dtype)
+            bs_[:, ::2, :], br_[::2, :] = sim, real
+            sim, real = bs_[:, ::2, :], br_[::2, :]
+        elif layout == "fortran":
+            sim, real = np.asfortranarray(sim), np.asfortranarray(real)
+        cnt(f"layout_{layout}")
+        wit["layout"] = layout
         try:
             loss = build(d)
             before = snap_vars(loss)
